@@ -21,7 +21,8 @@ KEYS = ['C', 'Ce', 'e', 'H', 'He', 'N', 'n', 'Na', 'p', 'P', 'D', 'T', '13C', '2
 COUNTS = [-200, -2, -1, 0, 1, 2, 12, 500, 0.5, -1.25, 0.0001]
 COUNTS3 = [-2, 0, 1, 12, 0.5]
 SEPS = ['', ' ', '|']
-GNAMES = ['Hex', 'HexNAc', 'HexN', 'HexS', 'HexNAc(S)', 'a-Hex', 'd-Hex', 'Neu', 'Neu5Ac', 'Pen', 'Acetyl', 'Me']
+GNAMES = ['Hex', 'HexNAc', 'HexN', 'HexS', 'HexNAc(S)', 'a-Hex', 'd-Hex', 'Neu', 'Neu5Ac', 'Pen', 'Acetyl', 'Me',
+          'HexA', 'aHex', 'NeuAc', 'Pent', 'dHex', 'Ac']   # synonyms: the same monosaccharide under a second spelling
 GCOUNTS = [-5, 0, 1, 2, 20, 1.5]
 
 
@@ -60,7 +61,7 @@ def gen(shard, tier):
         a = shard['first']
         for m in (1, 2, 3):
             for rest in itertools.permutations([i for i in range(len(GNAMES)) if i != a], m - 1):
-                if m == 3 and tier != 'thorough' and (rest[0] + rest[1]) % 3 != 0:
+                if m == 3 and tier != 'thorough' and (rest[0] + rest[1]) % 5 != 0:
                     continue
                 gc = GCOUNTS if m <= 2 else [0, 1, 2, 1.5]
                 for counts in itertools.product(gc, repeat=m):
@@ -140,6 +141,14 @@ def check(case, ctx):
                     continue
                 if nz(back) != exp or any(type(back[k]) is not type(exp[k]) and back[k] != exp[k] for k in exp if k in back):
                     ctx.fail('round-trip', exp, back, call=call, written=w)
+                    continue
+                # the parsed composition belongs to the caller: editing it must not change a later parse
+                back['C'] = back.get('C', 0) + 1000
+                back['Xx'] = 1
+                st, again = lib.call(p.parse_chem_formula, w, sep)
+                ctx.evals += 1
+                if st != 'ok' or nz(again) != exp:
+                    ctx.fail('parse-after-editing-previous-result', exp, again, call=call, written=w)
                     continue
                 st, m = lib.call(p.chem_mass, w, True, None, sep)
                 ctx.evals += 1
